@@ -101,3 +101,21 @@ func ProbeCopyLoss(p *an.Prog) {
 		}
 	}
 }
+
+// ProbeTransformFlags lists the change-flag expression of every return of the registered transformations.
+func ProbeTransformFlags(p *an.Prog) {
+	for _, fn := range p.ModFuncs {
+		if fn.Pkg == nil || fn.Pkg.Pkg.Path() != an.ModPath+"/internal/transformations" || fn.Parent() != nil {
+			continue
+		}
+		sig := fn.Signature
+		if sig.Results().Len() != 3 || sig.Params().Len() != 1 {
+			continue
+		}
+		an.Instrs(fn, func(in ssa.Instruction) {
+			if r, ok := in.(*ssa.Return); ok {
+				fmt.Printf("%-22s out=%-60.60s flag=%.90s\n", fn.Name(), an.Expr(r.Results[0]), an.Expr(r.Results[1]))
+			}
+		})
+	}
+}
